@@ -13,6 +13,11 @@ import E2P.Spec.DateSpec
 import E2P.Model.Round
 import E2P.Model.Lookup
 import E2P.Spec.LookupSpec
+import E2P.Model.Text
+import E2P.Spec.TextSpec
+import E2P.Model.Branch
+import E2P.Spec.BranchSpec
+import E2P.Generated.RuntimeConsts
 open E2P
 
 def optB : Option Bool → String
@@ -174,6 +179,112 @@ def handleLookup (args : List String) : String :=
       | _, _ => "bad-op"
   | _ => "bad-op"
 
+def encTextOut : TextOut → String
+  | .text s => encStr s
+  | .errorValue => "ERRVAL"
+  | .position p => s!"I{p}"
+
+/-- text helpers: `tx <fn> args…` -/
+def handleText (args : List String) : String :=
+  match args with
+  | fn :: rest =>
+    match decAll rest with
+    | none => "bad-op"
+    | some vs =>
+      match fn, vs with
+      | "left", [.str t, .int n] => s!"{encRes (leftFn t n)} | {encTextOut (specLeft t n)} | "
+      | "right", [.str t, .int n] => s!"{encRes (rightFn t n)} | {encTextOut (specRight t n)} | "
+      | "mid", [.str t, .int k, .int n] => s!"{encRes (midFn t k n)} | {encTextOut (specMid t k n)} | "
+      | "search", [.str f, .str t, st] =>
+        let start : Option (Option Int) := match st with | .int z => some (some z) | .none => some none | _ => none
+        match start with
+        | some st =>
+          let m := searchFn f t st
+          let spec := match m with | .ok (.int p) => s!"I{p}" | .ok _ => "ERRVAL" | .error _ => "-"
+          s!"{encRes m} | {spec} | "
+        | none => "bad-op"
+      | "concat", vs =>
+        let m := concatFn vs
+        let spec := match m with | .ok v => optV (some v) | .error _ => "-"
+        s!"{encRes m} | {spec} | "
+      | "value", [.str t] =>
+        let m := valueFn t
+        let spec := match m with | .ok v => optV (some v) | .error _ => "-"
+        s!"{encRes m} | {spec} | "
+      | _, _ => "bad-op"
+  | _ => "bad-op"
+
+/-- prefix parser for formulas of the C13 fragment -/
+def parseX : Nat → List String → Option (XExpr × List String)
+  | 0, _ => none
+  | fuel + 1, ts =>
+    let two (mk : XExpr → XExpr → XExpr) (r : List String) : Option (XExpr × List String) := do
+      let (a, r) ← parseX fuel r
+      let (b, r) ← parseX fuel r
+      some (mk a b, r)
+    match ts with
+    | "lit" :: r => (decVal r).map fun (v, r) => (.lit v, r)
+    | "ref" :: i :: r => i.toNat?.map fun i => (.ref i, r)
+    | "div" :: r => two .div r
+    | "add" :: r => two .add r
+    | "mul" :: r => two .mul r
+    | "cat" :: r => two .cat r
+    | "eq" :: r => two .eq r
+    | "sum" :: r => two .sum2 r
+    | "left" :: r => two .left r
+    | "iferr" :: r => two .iferror r
+    | "if2" :: r => two (fun c t => .iff c t none) r
+    | "if3" :: r => do
+      let (c, r) ← parseX fuel r
+      let (t, r) ← parseX fuel r
+      let (f, r) ← parseX fuel r
+      some (.iff c t (some f), r)
+    | "ifs" :: n :: r => do
+      let n ← n.toNat?
+      let rec pairs : Nat → List String → Option (List (XExpr × XExpr) × List String)
+        | 0, r => some ([], r)
+        | k + 1, r => do
+          let (c, r) ← parseX fuel r
+          let (v, r) ← parseX fuel r
+          let (ps, r) ← pairs k r
+          some ((c, v) :: ps, r)
+      let (ps, r) ← pairs n r
+      some (ps.foldr (fun (c, v) acc => .ifsCons c v acc) .ifsNil, r)
+    | _ => none
+
+def decRes (ts : List String) : Option (Res × List String) :=
+  match ts with
+  | t :: r => if t.startsWith "E" then some (.error (PyExc.ofName (t.drop 1).toString), r) else (decVal ts).map fun (v, r) => (.ok v, r)
+  | [] => none
+
+/-- `br <ncells> res₀ … <formula>` -/
+def handleBranch (args : List String) : String :=
+  match args with
+  | n :: rest =>
+    match n.toNat? with
+    | none => "bad-op"
+    | some n =>
+      let rec cells : Nat → List String → Option (List Res × List String)
+        | 0, r => some ([], r)
+        | k + 1, r => do
+          let (x, r) ← decRes r
+          let (xs, r) ← cells k r
+          some (x :: xs, r)
+      match cells n rest with
+      | none => "bad-op"
+      | some (cs, r) =>
+        match parseX (r.length + 1) r with
+        | some (e, []) =>
+          let env : Nat → Res := fun i => cs.getD i (.ok .blank)
+          let model := evalPy (E2P.Generated.errorValuesTemplate.map String.toList) env (translateX e)
+          let spec := match evalX env e with
+            | .ok v => optV (some v)
+            | .error .unmodelled => "-"
+            | .error _ => "EFAIL"
+          s!"{encRes model} | {if wellFormed e then spec else "-"} | "
+        | _ => "bad-op"
+  | _ => "bad-op"
+
 def handle (line : String) : String :=
   match tokens line with
   | "echo" :: rest =>
@@ -184,6 +295,8 @@ def handle (line : String) : String :=
   | "dt" :: rest => handleDate rest
   | "rnd" :: rest => handleRound rest
   | "lk" :: rest => handleLookup rest
+  | "tx" :: rest => handleText rest
+  | "br" :: rest => handleBranch rest
   | "pct" :: rest => handlePct rest
   | _ => "bad-op"
 
